@@ -28,7 +28,9 @@ RULE = ('names cases = every request form (\'all\', \'default\', \'\', stream, t
         'sequences; bandpass cases = cal and data channelisations (equal, coarser, finer, offset) with invalid '
         'channels at the edges and inside; delay cases incl. NaN; flux cases = targets with aliases, flux tables with '
         'missing / NaN / zero / negative entries; pipeline cases = raw telstate-like sensors for K, B (1-4 parts), G, '
-        'GPHASE, GAMP_PHASE through add_applycal_sensors with measured fluxes, overrides and None, every input.  '
+        'GPHASE, GAMP_PHASE through add_applycal_sensors with measured fluxes, overrides and None, every input; '
+        'skipreject cases = calc_correction with complete / incomplete / unknown products, with and without '
+        'skip_missing_products.  '
         'non-trivial = the case produced at least one numerically compared value (or a non-empty name list); '
         'distinct = hash of the model request lines.')
 TRUSTED = ['Lean 4.33 kernel', 'axioms: propext, Classical.choice, Quot.sound only',
@@ -717,11 +719,72 @@ def eval_pipeline(ctx, c):
     return lines, cont2
 
 
+# ------------------------------------------------------------------ skipping / rejecting missing products
+
+def gen_skipreject(rng):
+    labels = rng.sample(['m000h', 'm000v', 'm001h', 'm001v', 'a9', 'a10'], rng.randint(1, 4))
+    cps = [[rng.choice(labels), rng.choice(labels)] for _ in range(rng.randint(1, 4))]
+    used = sorted({l for cp in cps for l in cp})
+    streams = rng.choice([['l1'], ['l1', 'l2'], ['l2']])
+    pool = [s + '.' + t for s in ['l1', 'l2'] for t in TYPES] + ['l1.UNKNOWN', 'nodot']
+    names = [rng.choice(pool) for _ in range(rng.randint(0, 5))]
+    have = []
+    for n in sorted(set(names)):
+        if '.' not in n or n.endswith('UNKNOWN') or n.split('.')[0] not in streams:
+            continue
+        r = rng.random()
+        for inp in used:
+            if r < 0.6 or (r < 0.85 and rng.random() < 0.6):
+                have.append([n, inp])
+    return dict(kind='skipreject', corrprods=cps, names=names, streams=streams, have=have, skip=rng.random() < 0.5)
+
+
+def skipreject_line(c):
+    return ' '.join(['products', sx([sx([sstr(a), sstr(b)]) for a, b in c['have']]),
+                     sx([sx([sstr(a), sstr(b)]) for a, b in c['corrprods']]), sx([sstr(n) for n in c['names']]),
+                     sx([sstr(s) for s in c['streams']]), '1' if c['skip'] else '0'])
+
+
+def eval_skipreject(ctx, c, node):
+    import dask
+    from katdal.applycal import calc_correction
+    from katdal.sensordata import SensorCache
+    cache = SensorCache({}, timestamps=np.arange(1, dtype=float), dump_period=1.0)
+    for n, inp in c['have']:
+        stream, ptype = n.rsplit('.', 1)
+        cache[f'Calibration/Corrections/{stream}/{ptype}/{inp}'] = np.ones((1, 1), dtype=np.complex64)
+    cps = [tuple(cp) for cp in c['corrprods']]
+    try:
+        with dask.config.set(scheduler='synchronous'):
+            finals, corr = calc_correction(((1,), (1,), (len(cps),)), cache, cps, list(c['names']), np.array([1.0]),
+                                           {s: np.array([1.0]) for s in c['streams']}, c['skip'])
+        impl = list(finals)
+        if (corr is None) != (not impl):
+            return f'calc_correction returned corrections={corr is not None} with final products {impl}', False
+    except Exception as e:   # noqa: BLE001
+        impl = 'raised ' + type(e).__name__
+    ctx.tag('skipreject-skip' if c['skip'] else 'skipreject-strict')
+    if isinstance(node, str):
+        ctx.tag('skipreject-rejected')
+        if not isinstance(impl, str):
+            return (f'products {c["names"]} with sensors only for {sorted({n for n, _ in c["have"]})} and '
+                    f'skip_missing_products={c["skip"]}: expected {node[2:]}, implementation applied {impl}'), False
+        return None, True
+    spec = [atom_str(a) for a in node[1]]
+    if isinstance(impl, str):
+        return (f'products {c["names"]} with skip_missing_products={c["skip"]}: implementation {impl}, expected the '
+                f'complete products {spec} to be applied and the rest skipped'), False
+    if impl != spec:
+        return (f'products {c["names"]} with skip_missing_products={c["skip"]}: applied {impl}, expected {spec} '
+                f'(products with a correction sensor for every input, in request order)'), False
+    return None, bool(spec)
+
+
 # ------------------------------------------------------------------ driver
 
 GENS = [('names', gen_names, 0.28), ('stitch', gen_stitch, 0.12), ('cinterp', gen_cinterp, 0.12),
         ('gain', gen_gain, 0.16), ('bandpass', gen_bandpass, 0.1), ('delay', gen_delay, 0.04), ('flux', gen_flux, 0.06),
-        ('pipeline', gen_pipeline, 0.12)]
+        ('pipeline', gen_pipeline, 0.08), ('skipreject', gen_skipreject, 0.04)]
 
 
 def gen_case(rng):
@@ -747,6 +810,8 @@ def evaluate(ctx, cases):
                 item = ([stitch_line(c)], lambda nodes, c=c: eval_stitch(ctx, c, nodes[0]))
             elif k == 'cinterp':
                 item = ([cinterp_line(c)], lambda nodes, c=c: eval_cinterp(ctx, c, nodes[0]))
+            elif k == 'skipreject':
+                item = ([skipreject_line(c)], lambda nodes, c=c: eval_skipreject(ctx, c, nodes[0]))
             elif k in ('gain', 'bandpass', 'delay', 'flux'):
                 r = {'gain': eval_gain, 'bandpass': eval_bandpass, 'delay': eval_delay, 'flux': eval_flux}[k](ctx, c)
                 item = None if r is None else ([r[0]], lambda nodes, f=r[1]: f(nodes[0]))
